@@ -239,7 +239,9 @@ def run_shard(desc):
         if counter[0] % replay_every == 1:
             again = h.run(list(ex.choices))
             h.replayed += 1
-            if again.results != ex.results or again.choices != ex.choices:
+            # at opcode granularity CPython's adaptive interpreter changes how many opcode events a function produces from one run to the
+            # next, so only the observations (not the number of scheduling points) must repeat there
+            if again.results != ex.results or (not opcode and again.choices != ex.choices):
                 nondet.append((list(ex.choices), str(ex.results)[:200], str(again.results)[:200]))
     st = sched.explore(h.run, h.check, bound, first_dev=first_dev, on_execution=on_execution,
                        max_executions=400000)
